@@ -8,12 +8,14 @@
     stay disjoint and intact whichever of them evaluates - an invariant of every interleaving.
     Not proved: that what instance B READS is determined by its region alone up to a renaming of
     addresses (allocation indices depend on how much the other instance has allocated); that half is
-    covered by the correspondence check, which compares B interleaved with A against B alone; and the
-    loader (imports) is covered by C19_import_keeps_instance and the check, not by the region theorem. *)
+    covered by the correspondence check, which compares B interleaved with A against B alone.
+    The third group (Proofs/LoaderRegion.v) lifts the invariant to whole top-level forms evaluated
+    through an instance - imports and library instantiation (file and registered libraries, nested
+    import sets, library bodies), definitions, syntax definitions, expressions. *)
 From Coq Require Import List.
 From RV Require Import Model.Common Model.Ast Model.Value Model.Reader Model.Interp
   Model.Eval Spec.EvalSpec Proofs.ImportProofs Proofs.LoaderProofs Proofs.WorldProofs Proofs.EvalProofs
-  Proofs.LibBoot Proofs.RegionProofs Proofs.RegionBoot.
+  Proofs.LibBoot Proofs.RegionProofs Proofs.RegionBoot Proofs.LoaderRegion Proofs.InstBoot.
 Import ListNotations.
 
 (** reading and transforming a form changes nothing but (possibly) the syntax table *)
@@ -80,3 +82,34 @@ Proof. exact new_root_region. Qed.
 Theorem C19_boot_state_is_a_region : stok (all_frames boot_state) (all_vectors boot_state) boot_state /\
   all_frames boot_state boot_root /\ 2 <= length (frames boot_state).
 Proof. exact boot_state_is_a_region. Qed.
+
+(** * instances *)
+
+(** an instance belongs to a region when its root frame is in it and the values it holds outside the
+    store (exports of instantiated libraries, native factory tables) refer only to the region. Any
+    top-level form evaluated through it - (import ...) with everything the loader does, a definition,
+    an expression - makes a region step and leaves the instance in the new region *)
+Theorem C19_top_level_form_stays_in_region : forall fs cwd efuel stm c r c' F V,
+  eval_ast fs cwd efuel stm (i_env (c_inst c)) c = (r, c') -> noF r ->
+  stok F V (c_st c) -> inst_ok F V (c_inst c) ->
+  exists F' V', step_ok F V (c_st c) F' V' (c_st c') /\ inst_ok F' V' (c_inst c').
+Proof. exact eval_ast_region. Qed.
+
+(** two instances with disjoint regions over one store: whatever top-level form one of them evaluates,
+    the other's frames and vectors are exactly what they were; both stay well-formed and disjoint. By
+    induction this holds for every interleaving of forms through the two instances *)
+Theorem C19_two_instances : forall fs cwd efuel stm c r c' F1 V1 i2 F2 V2,
+  eval_ast fs cwd efuel stm (i_env (c_inst c)) c = (r, c') -> noF r ->
+  stok F1 V1 (c_st c) -> inst_ok F1 V1 (c_inst c) ->
+  stok F2 V2 (c_st c) -> inst_ok F2 V2 i2 -> disjoint F1 F2 -> disjoint V1 V2 ->
+  exists F1' V1',
+    stok F1' V1' (c_st c') /\ inst_ok F1' V1' (c_inst c') /\
+    stok F2 V2 (c_st c') /\ inst_ok F2 V2 i2 /\ disjoint F1' F2 /\ disjoint V1' V2 /\
+    (forall a, F2 a -> nth_error (frames (c_st c')) a = nth_error (frames (c_st c)) a) /\
+    (forall x, V2 x -> nth_error (vectors (c_st c')) x = nth_error (vectors (c_st c)) x).
+Proof. exact two_instances. Qed.
+
+(** not vacuous: the instance created at start-up belongs to the region made of the start-up store *)
+Theorem C19_boot_instance_in_region :
+  inst_ok (all_frames boot_state) (all_vectors boot_state) boot_inst /\ i_env boot_inst = boot_root.
+Proof. exact boot_instance_in_region. Qed.
